@@ -2,7 +2,7 @@
 import os
 import vlib
 
-CUR = dict(MarkBeforeWrite=False, FlushInPlace=False, TrustSidecarWithoutFile=False)
+CUR = dict(MarkBeforeWrite=False, FlushInPlace=False, TrustSidecarWithoutFile=False, SizeBeforeMeta=False)   # SizeBeforeMeta: the code up to fix F-C06-3
 SAFETY = ['MetadataSound', 'AtomicReplace', 'MemSound', 'CompleteIsCorrect', 'AdvertisedIsPersisted']
 
 
@@ -35,7 +35,8 @@ def negative_controls(which):
     table = dict(MarkBeforeWrite=(dict(MarkBeforeWrite=True), 'MetadataSound'),
                  FlushInPlace=(dict(FlushInPlace=True), 'AtomicReplace'),
                  TrustSidecarWithoutFile=(dict(Tamper=True, TrustSidecarWithoutFile=True), 'CompleteIsCorrect'),
-                 TornThenKilled=(dict(Tamper=True, AllowTorn=True, MaxKills=1), 'CompleteIsCorrect'))
+                 TornThenKilled=(dict(Tamper=True, AllowTorn=True, MaxKills=1), 'CompleteIsCorrect'),
+                 SizeBeforeMeta=(dict(Tamper=True, SizeBeforeMeta=True, MaxKills=1), 'CompleteIsCorrect'))
     out = {}
     for name in which:
         sw, inv = table[name]
